@@ -92,7 +92,7 @@ def run(tier, seed):
             sig.signature_value.text = 'GOOD' if good else 'BAD'
             return sig
 
-        def make(irt, resp_sig, ass_sig, encrypted, mutate=None, undecryptable=False):
+        def make(irt, resp_sig, ass_sig, encrypted, mutate=None, undecryptable=False, layers=1):
             now, later = time_util.instant(), time_util.in_a_while(minutes=10)
             past, longpast = time_util.a_while_ago(minutes=10), time_util.a_while_ago(minutes=20)
             aid = sid()
@@ -132,6 +132,12 @@ def run(tier, seed):
                 r.signature = signature(rid, resp_sig)
             if encrypted:
                 cipher = 'NOKEY' if undecryptable else base64.b64encode(str(a).encode('utf-8')).decode()
+                for _ in range(layers - 1):
+                    # encrypted more than once: each decryption round of the SP uncovers the next layer
+                    inner = xenc.EncryptedData(type='http://www.w3.org/2001/04/xmlenc#Element',
+                                               encryption_method=xenc.EncryptionMethod(algorithm='http://www.w3.org/2001/04/xmlenc#aes128-cbc'),
+                                               cipher_data=xenc.CipherData(cipher_value=xenc.CipherValue(text=cipher)))
+                    cipher = base64.b64encode(str(inner).encode('utf-8')).decode()
                 r.encrypted_assertion = [saml.EncryptedAssertion(encrypted_data=xenc.EncryptedData(
                     type='http://www.w3.org/2001/04/xmlenc#Element',
                     encryption_method=xenc.EncryptionMethod(algorithm='http://www.w3.org/2001/04/xmlenc#aes128-cbc'),
@@ -180,6 +186,18 @@ def run(tier, seed):
                 if obs:
                     violations.append({'name': 'bounded[decrypted-assertion-checks]', 'cell': '%s, %s' % (mutate, 'encrypted' if encrypted else 'plain'),
                                        'what': 'an assertion that is %s was accepted' % mutate})
+        # an assertion that only surfaces in a later decryption round gets the same signature treatment
+        for want_ass, ass_sig in itertools.product([False, True], [None, True, False]):
+            client.want_response_signed, client.want_assertions_signed, client.want_assertions_or_response_signed = False, want_ass, False
+            rq = sid()
+            obs, why = observed(make(rq, None, ass_sig, True, layers=2), {rq: 'https://sp.example.org/came_from'})
+            exp = not (ass_sig is False or (want_ass and ass_sig is None))
+            n += 1
+            if obs != exp:
+                violations.append({'name': 'bounded[decrypted-assertion-checks]',
+                                   'cell': 'encrypted twice, want_assertions_signed=%s, assertion signature %s' % (want_ass, SIGNAME[ass_sig]),
+                                   'what': 'expected %s, the library %s (%s)' % ('accept' if exp else 'reject', 'accepts' if obs else 'rejects', why)})
+        client.want_response_signed, client.want_assertions_signed, client.want_assertions_or_response_signed = False, False, False
         rq = sid()
         obs, why = observed(make(rq, None, None, True, undecryptable=True), {rq: 'https://sp.example.org/came_from'})
         n += 1
@@ -197,5 +215,5 @@ def run(tier, seed):
         sigver.CryptoBackendXmlSec1.validate_signature, sigver.CryptoBackendXmlSec1.decrypt = saved
     return {'name': 'sig_table', 'label': 'BOUNDED (finite table of the statement through the real SP entry point with a stubbed tool; not a proof)',
             'bound': '8 option settings x 3 x 3 signature states x {plain, encrypted} = 144 cells; 6 mutations x {plain, encrypted}; '
-                     'undecryptable content; 1 control',
+                     'undecryptable content; 6 twice-encrypted cases; 1 control',
             'evaluations': n, 'violations': violations}
